@@ -2341,9 +2341,8 @@ namespace adept {
       vec.reserve(vec.size() + size());
       do {
 	// Innermost loop - note that the counter is index, not max_index
-	for (Index max_index = index + dimensions_[Rank-1]*offset_[Rank-1];
-	     index != max_index;
-	     index += offset_[Rank-1]) {
+	for (Index k = 0; k < dimensions_[Rank-1];
+	     ++k, index += offset_[Rank-1]) {
 	  vec.push_back(gradient_ind + index);
 	}
 	// Increment counters appropriately depending on which
@@ -2824,9 +2823,8 @@ namespace adept {
       int my_rank;
       do {
 	// Innermost loop - note that the counter is index, not max_index
-	for (Index max_index = index + dimensions_[LocalRank-1]*offset_[LocalRank-1];
-	     index != max_index;
-	     index += offset_[LocalRank-1]) {
+	for (Index k = 0; k < dimensions_[LocalRank-1];
+	     ++k, index += offset_[LocalRank-1]) {
 	  data_[index] = x;
 	}
 	// Increment counters appropriately depending on which
@@ -2855,8 +2853,8 @@ namespace adept {
 	// Innermost loop
 	ADEPT_ACTIVE_STACK->push_lhs_range(gradient_ind+index, dimensions_[LocalRank-1],
 					   offset_[LocalRank-1]);
-	for (Index max_index = index + dimensions_[LocalRank-1]*offset_[LocalRank-1];
-	     index != max_index; index += offset_[LocalRank-1]) {
+	for (Index k = 0; k < dimensions_[LocalRank-1];
+	     ++k, index += offset_[LocalRank-1]) {
 	  data_[index] = x;
 	}
 
